@@ -188,11 +188,18 @@ POOL = [
 ]
 
 
-def two_files_api(i: int, j: int, k: int, rg: bool) -> bool:
+def two_files_api(b0: bool, b1: bool, b2: bool, b3: bool, b4: bool, b5: bool, b6: bool, b7: bool, b8: bool) -> bool:
     """
-    pre: 0 <= i < 6 and 0 <= j < 6 and 0 <= k < 6
     post: _
     """
+    from vf.stubs import untraced, bits_index, decode_index
+    d = decode_index(bits_index(b0, b1, b2, b3, b4, b5, b6, b7, b8), [6, 6, 6, 2])
+    if d is None:
+        return True
+    return untraced(_two_files_api_impl, d[0], d[1], d[2], bool(d[3]))
+
+
+def _two_files_api_impl(i, j, k, rg):
     # one in-place run over three files with the real do_minify and the real minify: afterwards every file holds its
     # original bytes or exactly what the API returns for those bytes and the same options in a fresh call
     import python_minifier
@@ -296,7 +303,7 @@ def obligations(tier, seed):
              bounds='one symbolic name |f| <= %d between a.py and c.pyw; failure position 0-3, 4 failure kinds, 2^3 benefit patterns, optional direct argument' % n,
              public_replay='public_failure'),
         dict(name='C15.inplace_tree.twin', fn='inplace_tree_twin', shards=[[]], timeout=t, expect='refuted', bounds='reachability twin'),
-        dict(name='C15.two_files_api', fn='two_files_api', shards=[['rg == %s' % b, 'i %% 2 == %d' % r] for b in (True, False) for r in (0, 1)], timeout=t,
+        dict(name='C15.two_files_api', fn='two_files_api', shards=[['b8 == %s' % b] for b in (True, False)], timeout=t,
              bounds='three files drawn from a pool of 6 sources (literal __all__, type parameters, plain, not-beneficial), real minify, rename_globals on/off'),
         dict(name='C15.output_mode_single', fn='output_mode_single', shards=[[]], timeout=t, bounds='--output with one source'),
     ]
